@@ -149,10 +149,12 @@ void Service::CleanupAllSessions() {
 }
 
 void Service::SetNotificationHandler(const NotificationHandler& handler) {
+  std::lock_guard<std::mutex> lock(mutex_);
   notification_handler_ = handler;
 }
 
 void Service::ClearNotificationHandler() {
+  std::lock_guard<std::mutex> lock(mutex_);
   notification_handler_ = nullptr;
 }
 
@@ -160,8 +162,8 @@ void Service::Notify(SessionId session_id,
                      const string& message_type,
                      const string& message_value) {
   RIME_VERIF_YIELD(RIME_VERIF_NOTIFY_ENTER);
+  std::lock_guard<std::mutex> lock(mutex_);
   if (notification_handler_) {
-    std::lock_guard<std::mutex> lock(mutex_);
     RIME_VERIF_YIELD(RIME_VERIF_NOTIFY_LOCKED);
     notification_handler_(session_id, message_type.c_str(),
                           message_value.c_str());
